@@ -2386,6 +2386,47 @@ pub mod verif_hooks {
 		}
 	}
 
+	/// value claimed by a justice input built with the real `RevokedHTLCOutput::build` for an HTLC of
+	/// `amount_msat`: `(stored amount, PackageSolvingData::amount())`
+	pub fn revoked_htlc_claim_amount(amount_msat: u64, offered: bool) -> (u64, u64) {
+		use crate::ln::chan_utils::{ChannelPublicKeys, CounterpartyChannelTransactionParameters};
+		let pk = PublicKey::from_slice(&[2; 33]).unwrap();
+		let sk = SecretKey::from_slice(&[1; 32]).unwrap();
+		let keys = ChannelPublicKeys {
+			funding_pubkey: pk,
+			revocation_basepoint: pk.into(),
+			payment_point: pk,
+			delayed_payment_basepoint: pk.into(),
+			htlc_basepoint: pk.into(),
+		};
+		let params = ChannelTransactionParameters {
+			holder_pubkeys: keys.clone(),
+			holder_selected_contest_delay: 42,
+			is_outbound_from_holder: true,
+			counterparty_parameters: Some(CounterpartyChannelTransactionParameters {
+				pubkeys: keys,
+				selected_contest_delay: 42,
+			}),
+			funding_outpoint: Some(crate::chain::transaction::OutPoint {
+				txid: Txid::from_byte_array([42; 32]),
+				index: 0,
+			}),
+			splice_parent_funding_txid: None,
+			channel_type_features: ChannelTypeFeatures::only_static_remote_key(),
+			channel_value_satoshis: 1_000_000,
+		};
+		let htlc = HTLCOutputInCommitment {
+			offered,
+			amount_msat,
+			cltv_expiry: 100,
+			payment_hash: PaymentHash([1; 32]),
+			transaction_output_index: Some(0),
+		};
+		let outp = RevokedHTLCOutput::build(pk, sk, htlc, params, 100);
+		let stored = outp.amount;
+		(stored, PackageSolvingData::RevokedHTLCOutput(outp).amount())
+	}
+
 	pub fn template(
 		inputs: &[InputSpec], counterparty_spendable_height: u32, feerate_previous: u64,
 	) -> PackageTemplate {
